@@ -22,8 +22,9 @@ RULE = (
     "operation finished / after all downstream operations finished — including the array-creation tasks), and execution mode in "
     "{direct, cloudpickle round trip in-process, fresh interpreter per task (sampled)}. Oracle: (a) every chunk key of every array "
     "holds the same bytes after V as after R and the returned results are equal (and equal NumPy where an oracle exists); (b) all "
-    "sets of one key within V carry identical bytes; (c) random arrays: values in [0,1), different blocks of one array differ, two "
-    "random arrays of one program differ. Non-trivial = a duplicate ran after a downstream operation, or an operation with >= 3 "
+    "sets of one key within V carry identical bytes; (c) random arrays: values in [0,1), different blocks of one array differ and share no value (streams do not overlap), two "
+    "random arrays of one program differ; a separate family draws cubed.random.random geometries of 1-4 dimensions directly (every task "
+    "duplicated, permuted order, float64 streams of distinct blocks share no value). Non-trivial = a duplicate ran after a downstream operation, or an operation with >= 3 "
     "tasks was permuted, or tasks ran from their serialized form; distinct = canonical JSON."
 )
 ASSUMPTIONS = [
@@ -199,8 +200,23 @@ def check_case(case) -> Outcome:
                             if big[a_].shape == big[b_].shape and np.array_equal(big[a_], big[b_]):
                                 fails.append(Failure("random-blocks-identical", f"input {i}: two blocks of one random array are identical"))
                                 break
+                    # distinct streams do not overlap: a float64 draw has 53 random bits, so among <= 10^4 values a coincidental
+                    # repeat has probability < 1e-8; a value occurring in two blocks means their streams share a stretch
+                    if x.dtype == np.float64 and 1 < x.size <= 10000:
+                        owner = {}
+                        for c, b in zip(all_blocks(x.shape, ch), blocks):
+                            for v_ in np.unique(b).tolist():
+                                if v_ in owner and owner[v_] != c:
+                                    fails.append(Failure("random-streams-overlap", f"input {i}: value {v_!r} occurs in blocks {owner[v_]} and {c}"))
+                                    break
+                                owner[v_] = c
+                            else:
+                                continue
+                            break
                 for a_ in range(len(rv)):
                     for b_ in range(a_ + 1, len(rv)):
+                        if rv[a_].dtype == np.float64 and rv[a_].size * rv[b_].size and rv[a_].size + rv[b_].size <= 10000 and np.intersect1d(rv[a_], rv[b_]).size:
+                            fails.append(Failure("random-streams-overlap", "two random arrays of one program share values"))
                         if rv[a_].shape == rv[b_].shape and rv[a_].size >= 8 and np.array_equal(rv[a_], rv[b_]):
                             fails.append(Failure("random-arrays-identical", "two random arrays of one program are identical"))
                 labels.add("random-checked")
@@ -262,12 +278,93 @@ def shipped_cases(opts):
     return cases()
 
 
+def random_cases():
+    from hypothesis import strategies as st
+
+    @st.composite
+    def cases(draw):
+        nd = draw(st.sampled_from([1, 2, 2, 3, 3, 4, 4, 4]))
+        shape = [draw(st.integers(2, 7 if nd < 4 else 5)) for _ in range(nd)]
+        chunks = [draw(st.integers(1, max(1, n - 1))) if draw(st.integers(0, 3)) else n for n in shape]
+        return {"kind": "random", "shape": shape, "chunks": chunks, "dtype": draw(st.sampled_from(["float64", "float64", "float32"])),
+                "perm_seed": draw(st.integers(0, 10**6)), "post": draw(st.sampled_from([None, "negative", "sum0"]))}
+
+    return cases()
+
+
+def check_random(case) -> Outcome:
+    """cubed.random.random over 1-4 dimensional block grids: a block regenerates identically when its task runs again (other
+    order, after downstream operations), values lie in [0,1), and no value occurs in two blocks (float64: streams of distinct
+    blocks do not overlap)."""
+    import cubed
+    import cubed.random
+    from zarr.storage import MemoryStore
+
+    from vp import harness as H
+    from vp.grid import all_blocks, block_slices
+
+    shape, chunks = tuple(case["shape"]), tuple(case["chunks"])
+    labels = {f"random-ndim={len(shape)}", f"random-dtype={case['dtype']}"}
+    fails = []
+    spec = cubed.Spec(intermediate_store=MemoryStore(), allowed_mem=2_000_000_000, reserved_mem=0)
+    with warnings.catch_warnings():
+        warnings.simplefilter("ignore")
+        import cubed.array_api as xp
+
+        try:
+            r = cubed.random.random(shape, dtype=getattr(xp, case["dtype"]), chunks=chunks, spec=spec)
+            out = r if case["post"] is None else (xp.negative(r) if case["post"] == "negative" else xp.sum(r, axis=0))
+            x1, o1 = [np.asarray(v) for v in cubed.compute(r, out, executor=H.ScheduleExecutor(H.Schedule()), optimize_graph=False)]
+        except Exception as e:
+            return Outcome(nontrivial=True, labels=tuple(labels), failures=(Failure(f"random-failed:{type(e).__name__}", f"{shape} chunks {chunks}: {e!r}"[:300]),))
+        # the same array object computed again: permuted order, every task of the random op duplicated at the end
+        spec.intermediate_store._store_dict.clear() if hasattr(spec.intermediate_store, "_store_dict") else None
+        sched = H.Schedule(perm_seed=case["perm_seed"], dup_list=[(0, k, "end") for k in range(4)] + [(1, k, "now") for k in range(2)])
+        x2, o2 = [np.asarray(v) for v in cubed.compute(r, out, executor=H.ScheduleExecutor(sched), optimize_graph=False)]
+    if not np.array_equal(x1, x2) or not np.array_equal(o1, o2, equal_nan=True):
+        fails.append(Failure("random-not-regenerated", f"{shape} chunks {chunks}: recomputing the same random array (permuted order, duplicated tasks) gave other values"))
+    if x1.shape != shape:
+        fails.append(Failure("random-shape", f"{x1.shape} != {shape}"))
+    if x1.size and not ((x1 >= 0).all() and (x1 < 1).all()):
+        fails.append(Failure("random-out-of-range", f"{shape}"))
+    ch = P.normalize_chunksize(list(shape), list(chunks))
+    coords = list(all_blocks(x1.shape, ch))
+    blocks = [x1[block_slices(x1.shape, ch, c)] for c in coords]
+    labels.add(f"random-blocks={min(len(blocks), 16) // 4 * 4}+")
+    if x1.dtype == np.float64:
+        owner = {}
+        for c, b in zip(coords, blocks):
+            hit = None
+            for v_ in np.unique(b).tolist():
+                if v_ in owner and owner[v_] != c:
+                    hit = (v_, owner[v_])
+                    break
+                owner[v_] = c
+            if hit:
+                fails.append(Failure("random-streams-overlap", f"shape {shape} chunks {chunks}: value {hit[0]!r} occurs in blocks {hit[1]} and {c}"))
+                break
+    for a_ in range(len(blocks)):
+        for b_ in range(a_ + 1, len(blocks)):
+            if blocks[a_].size >= 8 and blocks[a_].shape == blocks[b_].shape and np.array_equal(blocks[a_], blocks[b_]):
+                fails.append(Failure("random-blocks-identical", f"shape {shape} chunks {chunks}: blocks {coords[a_]} and {coords[b_]} are identical"))
+                break
+        else:
+            continue
+        break
+    seen, uniq = set(), []
+    for f in fails:
+        if f.bucket not in seen:
+            seen.add(f.bucket)
+            uniq.append(f)
+    return Outcome(nontrivial=len(blocks) >= 2, labels=tuple(labels), failures=tuple(uniq))
+
+
 def shards(tier):
     if tier == "quick":
         return [{"kind": "program", "name": f"s{i}", "n": 70, "rotate": 17 + i * 41} for i in range(6)] + [
             {"kind": "program", "name": "subproc", "n": 3, "rotate": 2, "modes": ["subprocess"], "max_ops": 2}] + [
-            {"kind": "shipped", "name": f"shipped{i}", "n": 12, "rotate": 8 + i * 31} for i in range(2)]
-    return [{"kind": "program", "name": f"s{i}", "n": 1200, "rotate": 17 + i * 41} for i in range(14)] + [
+            {"kind": "shipped", "name": f"shipped{i}", "n": 12, "rotate": 8 + i * 31} for i in range(2)] + [{"kind": "random", "name": "random", "n": 120}]
+    return [{"kind": "random", "name": f"random{i}", "n": 1500} for i in range(2)] + [{"kind": "program", "name": f"s{i}", "n": 1200, "rotate": 17 + i * 41} for i in range(14)] + [
         {"kind": "program", "name": f"subproc{i}", "n": 25, "rotate": 2 + i, "modes": ["subprocess"], "max_ops": 2} for i in range(2)] + [
         {"kind": "shipped", "name": f"shipped{i}", "n": 150, "rotate": 8 + i * 31} for i in range(2)]
 
@@ -281,6 +378,10 @@ def run_shard(spec, seed, tier) -> Acc:
         core.hyp_run(shipped_cases({"rotate": spec.get("rotate", 0), "allow_zero": False}), check_shipped, seed=seed, max_examples=spec["n"], acc=acc,
                      budget_s=420 if tier == "quick" else 3000, shrink=False, is_known=is_known)
         return acc
+    if spec["kind"] == "random":
+        core.hyp_run(random_cases(), check_random, seed=seed, max_examples=spec["n"], acc=acc, budget_s=420 if tier == "quick" else 3000,
+                     shrink=(tier == "thorough"), is_known=is_known)
+        return acc
     kw = {}
     if spec.get("modes"):
         kw["modes"] = tuple(spec["modes"])
@@ -290,6 +391,8 @@ def run_shard(spec, seed, tier) -> Acc:
 
 
 def replay(case):
+    if case.get("kind") == "random":
+        return check_random(case).all_failures()
     if case.get("kind") == "shipped":
         return check_shipped(case).all_failures()
     return check_case(case).all_failures()
